@@ -112,10 +112,52 @@ def s_not(c):
     return SBool(z3.Not(zbool(c)))
 
 
+class SPiece(Sym):
+    """if c then a else b, kept piecewise so that comparisons distribute over the branches (a branch may be a lazy
+    square root whose comparisons are squared instead of materialised)."""
+
+    def __init__(self, c, a, b):
+        self.c, self.a, self.b = c, a, b
+
+    def piece_value(self):
+        return SNum(z3.If(zbool(self.c), zreal(self.a), zreal(self.b)))
+
+    def _cmp(self, o, op):
+        import operator
+        f = getattr(operator, op)
+        return s_ite(self.c, f(self.a, o), f(self.b, o))
+
+    def __lt__(self, o): return self._cmp(o, "lt")
+    def __le__(self, o): return self._cmp(o, "le")
+    def __gt__(self, o): return self._cmp(o, "gt")
+    def __ge__(self, o): return self._cmp(o, "ge")
+    def __eq__(self, o): return s_ite(self.c, s_eq(self.a, o) if not isinstance(self.a, (SSqrt, SPiece)) else (self.a == o), s_eq(self.b, o) if not isinstance(self.b, (SSqrt, SPiece)) else (self.b == o))
+    def __ne__(self, o): return s_not(self.__eq__(o))
+    __hash__ = None
+
+    def __bool__(self):
+        return bool(_b(self))
+
+    def _arith(name):
+        def f(self, o):
+            return getattr(self.piece_value(), name)(o)
+        return f
+
+    for _n in ("add", "radd", "sub", "rsub", "mul", "rmul", "truediv", "rtruediv", "pow"):
+        locals()["__%s__" % _n] = _arith("__%s__" % _n)
+    del _n, _arith
+
+    def __neg__(self): return -self.piece_value()
+    def __abs__(self): return abs(self.piece_value())
+    def __repr__(self): return "SPiece"
+
+
 def s_ite(c, a, b):
     """scalar if-then-else for (SBool|bool) c"""
     if isinstance(c, (bool, _np.bool_)):
         return a if c else b
+    if isinstance(a, (SSqrt, SPiece)) or isinstance(b, (SSqrt, SPiece)):
+        return SPiece(c, a, b)
     ab = isinstance(a, (SBool, bool, _np.bool_))
     bb = isinstance(b, (SBool, bool, _np.bool_))
     if ab and bb:
@@ -659,6 +701,8 @@ def _b(v):
         return v
     if isinstance(v, SSqrt):
         return SBool(v.rad != 0)
+    if isinstance(v, SPiece):
+        return s_ite(v.c, _b(v.a), _b(v.b))
     if isinstance(v, SNum):
         return SBool(v.e != 0)
     return bool(v)
@@ -671,6 +715,8 @@ def _to_num(v):
         return 1.0 if v else 0.0
     if isinstance(v, SSqrt):
         return v.value()
+    if isinstance(v, SPiece):
+        return v.piece_value()
     return v
 
 
